@@ -161,6 +161,51 @@ def style_table(path):
     return rows, (mro.group(1), mro.group(2))
 
 
+def format_templates(path):
+    """every literal format!(\"...\") template of a file, in source order: (pieces, specs)"""
+    text = open(path).read()
+    out = []
+    for m in re.finditer(r'format!\(\s*"((?:[^"\\]|\\.)*)"', text):
+        lit = m.group(1)
+        # Rust string escapes that occur in these files: \" and \n
+        lit = lit.replace('\\"', '"').replace("\\n", "\n")
+        pieces, specs, cur, i = [], [], "", 0
+        while i < len(lit):
+            c = lit[i]
+            if c == "{":
+                if lit[i + 1] == "{":
+                    cur += "{"
+                    i += 2
+                    continue
+                j = lit.index("}", i)
+                spec = lit[i + 1:j]
+                if spec not in ("", ":X", ":08X"):
+                    raise Untranslatable("format spec {%s} in %r" % (spec, lit))
+                pieces.append(cur)
+                specs.append(spec)
+                cur = ""
+                i = j + 1
+                continue
+            if c == "}":
+                if lit[i + 1:i + 2] != "}":
+                    raise Untranslatable("lone } in %r" % lit)
+                cur += "}"
+                i += 2
+                continue
+            cur += c
+            i += 1
+        pieces.append(cur)
+        out.append((pieces, specs))
+    return out
+
+
+def coq_str_nl(s):
+    # a piece may contain a line break (not in these files today)
+    if "\n" in s:
+        raise Untranslatable("line break inside a template %r" % s)
+    return coq_str(s)
+
+
 def version(path):
     text = open(path).read()
     v = []
@@ -192,6 +237,14 @@ def generate():
     out.append("Definition makerom_special_from : string := %s." % coq_str(ro_from))
     out.append("Definition makerom_special_to : string := %s." % coq_str(ro_to))
     out.append("")
+    for tag, fname in (("sb", "script_buffer.rs"), ("lw", "linker_writer.rs")):
+        tpls = format_templates(os.path.join(SRC, fname))
+        out.append("(* the literal format! templates of %s, in source order: pieces around the arguments *)" % fname)
+        out.append("Definition fmt_%s : list (list string) :=" % tag)
+        out.append("  [" + ";\n   ".join("[" + "; ".join(coq_str_nl(p) for p in pieces) + "]" for pieces, specs in tpls) + "].")
+        out.append("Definition fmt_%s_specs : list (list string) :=" % tag)
+        out.append("  [" + ";\n   ".join("[" + "; ".join(coq_str(x) for x in specs) + "]" for pieces, specs in tpls) + "].")
+        out.append("")
     v = version(os.path.join(SRC, "version.rs"))
     out.append("Definition version_major : N := %d%%N." % v[0])
     out.append("Definition version_minor : N := %d%%N." % v[1])
